@@ -93,8 +93,8 @@ def playback(h, crate, scratch, timeout_s, mem_gb):
     env["RUSTFLAGS"] = "--cfg verif_native"
     reproduced = False
     for name in names:
-        for prof in ([], ["--release"]):
-            cmd = ["cargo", "kani", "playback", "-Z", "concrete-playback"] + prof + ["--", name, "--exact", "--nocapture"]
+        for prof in ([],):
+            cmd = ["cargo", "kani", "playback", "-Z", "concrete-playback"] + prof + ["--", name, "--nocapture"]
             # playback rejects --target-dir; keep its build inside the scratch copy via CARGO_TARGET_DIR
             env2 = dict(env)
             env2["CARGO_TARGET_DIR"] = os.path.join(scratch, "t_playback")
